@@ -68,7 +68,7 @@ def _source_of(ident):
 def shrink(req):
     """drop one source line at a time (a candidate the front end rejects is not a failure and is discarded by vlib)"""
     f = req.split("\t")
-    if len(f) >= 2 and f[0] == "C04.reelab":
+    if len(f) >= 2 and f[0] in ("C04.reelab", "C04.accept"):
         lines = f[1].split("\\n")
         for i in range(len(lines)):
             if lines[i].strip() in ("", "{", "}"):
@@ -138,7 +138,7 @@ def finding_key(req, obs, detail):
         line = detail.split("failed to parse source", 1)[1]
         if re.search(r"[^<]<(?![<=]).*[^>\-]>(?![>=]) \(", line):
             return TEMPLATE_LOOKAHEAD_KEY
-    if req.startswith("C04.reelab\t"):
+    if req.startswith("C04.reelab\t") or req.startswith("C04.accept\t"):
         # the specific input: the source text (ctx / ir are derived from it)
         return "C04.reelab\t" + req.split("\t")[1]
     return req
